@@ -3,6 +3,7 @@ package rules
 import (
 	"fmt"
 	"go/ast"
+	"go/token"
 	"go/types"
 	"sort"
 	"strings"
@@ -33,10 +34,12 @@ func runC11(c *Ctx) {
 	info := sy.Pkg.TypesInfo
 	// the set read from the lister
 	var setID *ast.Ident
+	var setStmt ast.Stmt
 	for _, s := range c.G.Sites {
 		if s.Fn == sy.Obj && s.Class == "cached-read" && s.Verb == "Get" {
 			if as, ok := stmtOf(sy.Decl.Body, s.Call).(*ast.AssignStmt); ok && len(as.Lhs) == 2 {
 				setID, _ = as.Lhs[0].(*ast.Ident)
+				setStmt = as
 			}
 		}
 	}
@@ -49,8 +52,13 @@ func runC11(c *Ctx) {
 		c.Fail("helper.GetPausedReconcile does not resolve")
 		return
 	}
-	notPaused := gf.Not(gf.FBool(gf.CallT(paused.FullName(), types.Typ[types.Bool], fn.Term(setID))))
+	// (built through the canoniser, so that a single-expression helper, which the engine reads as its body, is matched too)
+	notPaused := c.Want(fn, sy.Decl.Body.End()-1, "!helper.GetPausedReconcile($1)", setID)
+	if notPaused == gf.False {
+		notPaused = gf.Not(gf.FBool(gf.CallT(paused.FullName(), types.Typ[types.Bool], fn.Term(setID))))
+	}
 	n := 0
+	var aPaused *gf.Analysis
 	for _, call := range callsIn(sy.Decl.Body, false) {
 		// direct effect sites
 		class, res, verb := "", "", ""
@@ -74,7 +82,18 @@ func runC11(c *Ctx) {
 		sort.Strings(effs)
 		n++
 		name := fmt.Sprintf("sync: %s [effects: %s]", clip(types.ExprString(call.Fun), 60), clip(strings.Join(effs, ","), 120))
-		c.Implies(an.StateAtExpr(call), notPaused, "C11.1-pause-gate", name, call.Pos())
+		// decided by paths: once the set has been read, a reconcile of a paused set never reaches this call
+		// (the fact itself need not survive the calls in between)
+		if aPaused == nil {
+			aPaused = fn.FromAfter(setStmt, an.StateAfter(setStmt).Assume(gf.Not(notPaused)))
+		}
+		st := aPaused.StateAtExpr(call)
+		if st.Reachable() {
+			_, wit := st.Implies(gf.False)
+			c.Bad("C11.1-pause-gate", name, call.Pos(), "with the paused-reconcile annotation \"true\" on the set that was read, this writing call is still reachable; facts on one such path: "+clip(wit, 400))
+		} else {
+			c.OK("C11.1-pause-gate", name, call.Pos(), "unreachable when the set read from the lister is paused")
+		}
 	}
 	c.Floor("C11.1-writing-calls-in-sync", n, 3)
 	// dynamic calls inside sync (deferred closure): must not write
@@ -186,6 +205,31 @@ func (c *Ctx) pausedHelper(paused *types.Func) {
 		return
 	}
 	n := 0
+	// the whole helper as one expression: `return X.GetAnnotations()[PausedReconcileAnn] == "true"` (a missing key or
+	// a nil map reads as "", so both directions hold by the semantics of map indexing)
+	if len(fi.Decl.Body.List) == 1 {
+		if ret, ok := fi.Decl.Body.List[0].(*ast.ReturnStmt); ok && len(ret.Results) == 1 {
+			if be, ok := ast.Unparen(ret.Results[0]).(*ast.BinaryExpr); ok && be.Op == token.EQL {
+				ix, isIx := ast.Unparen(be.X).(*ast.IndexExpr)
+				other := be.Y
+				if !isIx {
+					ix, isIx = ast.Unparen(be.Y).(*ast.IndexExpr)
+					other = be.X
+				}
+				if isIx && fn.Term(other).Key() == gf.ConstStr("true").Key() {
+					if tv, ok := info.Types[ix.Index]; ok && tv.Value != nil && tv.Value.ExactString() == keyConst.Val().ExactString() {
+						if call, ok := ast.Unparen(ix.X).(*ast.CallExpr); ok {
+							if sel, ok := call.Fun.(*ast.SelectorExpr); ok && sel.Sel.Name == "GetAnnotations" {
+								c.OK("C11.1-paused-means-annotation-true", "GetPausedReconcile: "+types.ExprString(ret.Results[0]), ret.Pos(), `the helper is exactly annotations["paused-reconcile"] == "true"`)
+								c.OK("C11.1-annotation-true-means-paused", "GetPausedReconcile: "+types.ExprString(ret.Results[0]), ret.Pos(), `the helper is exactly annotations["paused-reconcile"] == "true"`)
+								return
+							}
+						}
+					}
+				}
+			}
+		}
+	}
 	ast.Inspect(fi.Decl.Body, func(x ast.Node) bool {
 		ret, ok := x.(*ast.ReturnStmt)
 		if !ok || len(ret.Results) != 1 {
